@@ -144,6 +144,30 @@ def _noaes(job, ctx):
                         ctx.violation("C08|no-aes|%s|recorded-method" % method, "recorded method %r" % (got[1].method,), case)
                     elif got[2] != p or got[1].ciphertext != _xor_ref(key, p):
                         ctx.violation("C08|no-aes|%s|not-xor" % method, "the value is not the plaintext XOR the repeated key, or does not invert", case)
+        # the set of known methods does not grow when a back end is missing
+        for m in ("", None, "des", "AES", 5, "Xor", "best ", "rot13", "aes-256"):
+            for opname in ("encrypt", "decrypt", "stored"):
+                ident = ["method", repr(m), opname]
+                if only is not None and only != ident:
+                    continue
+                kf, kpath = _keyfile(ctx, key, "na3.key")
+                ctx.transitions += 1
+                try:
+                    if opname == "stored":
+                        import cincoconfig as cc
+                        sch = cc.Schema()
+                        sch.s = cc.SecureField()
+                        cfg = cc.Config(sch, key_filename=kpath)
+                        cfg.load_tree({"s": {"method": m, "ciphertext": "QUJDREVGR0g="}})
+                        got = ("ok", cfg.s)
+                    else:
+                        with kf as c:
+                            got = ("ok", c.encrypt(b"abc", method=m) if opname == "encrypt" else c.decrypt(SecureValue(m, b"x" * 48)))
+                except Exception as exc:  # noqa
+                    got = ("raise", exc)
+                ctx.case(("noaes", "method", repr(m), opname), "noaes:method:%s" % got[0], True)
+                if got[0] == "ok":
+                    ctx.violation("C08|no-aes|unknown-method|%s|accepted" % opname, "without the AES back end, method %r was accepted by %s: %r" % (m, opname, got[1]), _case(job, ident))
         if aes_value is not None and (only is None or only == ["stored-aes"]):
             kf, _ = _keyfile(ctx, key, "na2.key")
             try:
@@ -529,5 +553,56 @@ def _stored(job, ctx):
                     ctx.violation("C08|crosskey|%s|%s|%s" % (fmethod, order, where),
                                   "a secret saved under one key file was read back in clear by a configuration using a different key file (%s, %s)" % (order, where),
                                   _case(job, ["crosskey", fmethod, order, where]))
+    # a value that was loaded is encrypted again by every save: fresh IV each time, and under the key file the
+    # configuration has at that moment
+    import json as _json
+    keyb, key2b = bytes(range(32)), bytes(255 - i for i in range(32))
+    for fmethod in ("aes", "xor", "best"):
+        for where in ("field", "list", "nested"):
+            for format in ("json", "yaml"):
+                ident = ["resave", fmethod, where, format]
+                if only and only != ident:
+                    continue
+                schema = cc.Schema()
+                schema.s = cc.SecureField(method=fmethod)
+                schema.l = cc.ListField(cc.SecureField(method=fmethod))
+                schema.sub.s = cc.SecureField(method=fmethod)
+                secret = "resaved-secret-%s" % where
+                tree = {"s": secret} if where == "field" else ({"l": [secret]} if where == "list" else {"sub": {"s": secret}})
+                case = _case(job, ident)
+                fp = "C08|resave|%s|%s|" % (fmethod, where)
+
+                def stored_of(cfg):
+                    t = _json.loads(cfg.dumps("json"))
+                    v = t["s"] if where == "field" else (t["l"][0] if where == "list" else t["sub"]["s"])
+                    return v["method"], base64.b64decode(v["ciphertext"])
+                try:
+                    src = cc.Config(schema, key_filename=keyp)
+                    src.load_tree(tree)
+                    doc = src.dumps(format)
+                    cfg = cc.Config(schema, key_filename=keyp)
+                    cfg.loads(doc, format)
+                    seen = [stored_of(src), stored_of(cfg), stored_of(cfg)]
+                    doc2 = cfg.dumps(format)
+                    cfg2 = cc.Config(schema, key_filename=keyp)
+                    cfg2.loads(doc2, format)
+                    seen.append(stored_of(cfg2))
+                    cfg._key_filename = key2
+                    rekeyed = stored_of(cfg)
+                except Exception as exc:  # noqa
+                    ctx.violation(fp + "raises", "load, save, save, re-key, save of a %s secret raised %r" % (where, exc), case)
+                    continue
+                ctx.transitions += 5
+                ctx.states += 1
+                ctx.case(("resave", fmethod, where, format), "resave:%s" % seen[0][0], True)
+                want_method = "xor" if fmethod == "xor" else "aes"
+                for i, (m, ct) in enumerate(seen):
+                    if m != want_method or _try_ref(m, keyb, ct) != secret.encode():
+                        ctx.violation(fp + "not-under-current-key", "save #%d after a load wrote a value that the reference %s does not decrypt to the secret under the configuration's key" % (i, want_method), case)
+                        break
+                if want_method == "aes" and len({ct[:16] for _, ct in seen}) != len(seen):
+                    ctx.violation(fp + "iv-reused", "saves of a loaded, unchanged secret reused an IV: %s" % [ct[:16].hex() for _, ct in seen], case)
+                if rekeyed[0] != want_method or _try_ref(rekeyed[0], key2b, rekeyed[1]) != secret.encode():
+                    ctx.violation(fp + "rekeyed-not-under-new-key", "after the configuration got another key file the saved value does not decrypt under that key file", case)
     ctx.traces += 1
     ctx.sample({"stored_shapes": [n for n, _ in STORED_BAD], "routes": ["to_python", "load_tree", "list-item"]})
